@@ -233,7 +233,7 @@ NONFATAL = ("LZMA_OK", "LZMA_STREAM_END", "LZMA_NO_CHECK", "LZMA_UNSUPPORTED_CHE
             "LZMA_SEEK_NEEDED", "LZMA_TIMED_OUT")
 
 
-def check_init_once(ck, prog, rule, files=None):
+def check_init_once(ck, prog, rule, files=None, one_shot=()):
     """In a resumable coder function a nested coder is initialised in some state S.  After a non-fatal return
     (LZMA_OK, LZMA_*_CHECK, LZMA_SEEK_NEEDED ...) the function is entered again in whatever state coder->sequence names:
     if the sequence was not advanced after the successful initialisation, the nested coder is initialised again (its
@@ -260,6 +260,9 @@ def check_init_once(ck, prog, rule, files=None):
                 if nm.endswith("_init") and nm.startswith("lzma_") and c["args"] and \
                         "coder->" in ex.show(c["args"][0]) and \
                         any(g.ret.startswith("lzma_ret") for g in prog.functions.get(nm, [])):
+                    sites.append((b, i, c, nm))
+                elif nm in one_shot and c["args"] and "coder->" in ex.show(c["args"][0]):
+                    # not idempotent (lzma_check_finish overwrites the state it reads): same obligation
                     sites.append((b, i, c, nm))
         if not sites:
             continue
@@ -457,6 +460,12 @@ READFIRST_EXCEPT = {
         "set when the record is allocated, from the per-architecture constant unfiltered_max",
     ("lzma_simple_coder_init", "buffer"):
         "only buffer[pos, size) is read and the init function sets pos = filtered = size = 0",
+    ("lzma_lzma_encoder_create", "reps"):
+        "stored by lzma_lzma_encoder_reset() in `for (i = 0; i < REPS; ++i) coder->reps[i] = 0`: REPS is the constant 4, "
+        "the loop body cannot be skipped",
+    ("lzma_lzma_encoder_create", "dist_slot"):
+        "stored by lzma_lzma_encoder_reset() in `for (i = 0; i < DIST_STATES; ++i) bittree_reset(coder->dist_slot[i], ...)`: "
+        "constant trip count 4; the probability arrays are also covered element by element by C01-RESET",
 }
 
 
@@ -610,6 +619,15 @@ def check_read_first(ck, prog, rule, files=None):
             continue
         owned = set(own.owned_fields(prog, rec, base))
         coders = [g for g in slot_fns if g.blocks and any(v.get("prec") == rec for v in g.vars)]
+        # a slot function that only forwards its void * coder (lzma_encode -> lzma_lzma_encode)
+        for g in slot_fns:
+            if not g.blocks or any(v.get("prec") for v in g.vars if v["n"] == "coder"):
+                continue
+            for callee in sorted(cg.direct.get(g.key, ())):
+                for h in prog.functions.get(callee, []):
+                    if h.file == g.file and h.blocks and h not in coders and h.params and \
+                            any(v["n"] == h.params[0]["n"] and v.get("prec") == rec for v in h.vars):
+                        coders.append(h)
         if not coders:
             continue
         # initial value of the state member
